@@ -58,8 +58,8 @@ ASSUMPTIONS = [
 ]
 NEVER_GENERATED = [
     'never generated (cannot be counted): empty sentence for the ".*" / "[^\\0]*" string machines (zero-length symbolic or '
-    'link-address EPATH segment, empty service_name / ip_address / free string_bytes) - regex machines reject the empty '
-    'sentence, a C11 matter',
+    'link-address EPATH segment, empty service_name / ip_address / free string_bytes) - regex machines accept only a '
+    'consumed prefix of length >= 1 (the behaviour C11 states), so these are not sentences of the cpppo grammars',
     'never generated: typed_data STRUCT with a structure_tag and no payload byte (typed_data raises in move_if mov_struct; '
     'codec matter), Get Attribute List with 0 attributes (device.py: "TODO: handle 0 attributes?"), Read/Write Tag payloads '
     'with a type and zero elements, connection_data item without payload',
@@ -605,7 +605,7 @@ def shard_sweep(job):
 
 
 # cases per group in the quick tier (thorough: x30); heavier grammars get more, every group its own streams
-PLAN = {'primitive': 600, 'regex': 300, 'scalar': 600, 'string': 450, 'epath': 600, 'status': 300, 'typed': 900,
+PLAN = {'primitive': 600, 'regex': 300, 'scalar': 900, 'string': 450, 'epath': 600, 'status': 300, 'typed': 900,
         'encapsulation': 450, 'command': 600, 'cpf_item': 900, 'cpf': 750, 'cip': 450, 'service': 1800}
 JOB = 300
 
